@@ -70,7 +70,8 @@ impl Property for C10 {
         o.alpha = Alpha::Tiny;
         o.attr_alpha = Alpha::Tiny;
         o.scoping = Scoping::Free;
-        o.xml_attrs = false;
+        // xml:lang / xml:space attributes: the xml prefix is always bound and never declared
+        o.xml_attrs = true;
         let mut doc = match src.weighted(&[4, 2, 3]) {
             0 => gen::gen_document(src, &o),
             1 => gen::gen_fragment(src, &o),
